@@ -251,6 +251,14 @@ func init() {
 		Shards: func(tier string) []vShard {
 			var sh []vShard
 			sh = append(sh, vShard{Name: "untrained", Run: vC13Untrained})
+			for _, bcfg := range []vVecCfg{{Kind: "ivf", Metric: Euclidean, Dim: 2, NList: 3, Train: 0}, {Kind: "ivf", Metric: Cosine, Dim: 3, NList: 2, Train: 1}} {
+				bcfg := bcfg
+				bdepth := 3
+				if tier == "thorough" {
+					bdepth = 4
+				}
+				sh = append(sh, vShard{Name: "builders/" + strings.ReplaceAll(bcfg.String(), " ", ","), Run: func(c *vCtx) { vVecBuilderShard(c, bcfg, bdepth) }})
+			}
 			maxL, maxNl, depth := 3, 3, 3
 			if tier == "thorough" {
 				maxL, maxNl, depth = 4, 4, 4
